@@ -13,7 +13,7 @@ run() { # property binary mode tag workers seed
   sort -n $out/$1.$4.w$5.s$6.log -o $out/$1.$4.w$5.s$6.log
 }
 for spec in C08:build/tshim/bin/econt: C01:build/small/bin/eion: C03:build/small/bin/eion: \
-            C07:build/small/bin/erhd: C10:build/small/bin/erhd: C09:build/small/bin/erhd: \
+            C07:build/small/bin/erhd: C10:build/small/bin/erhd: C09:build/small/bin/erhd: C14:build/small/bin/erhd: \
             C13:build/small/bin/eion: C13:build/plain/bin/erng: C12:build/small/bin/eion:perturb \
             C19:build/plain/bin/etl: C14:build/plain/bin/efs:; do
   IFS=: read -r prop bin mode <<<"$spec"
